@@ -50,6 +50,10 @@ def payload(kind, t):
     return np.ma.array(base, mask=MASK)
 
 
+class AliasAccepted(Exception):
+    pass
+
+
 class Prod(fm.TimeComponent):
     def __init__(self, pk, step, units, repush=False):
         super().__init__()
@@ -82,10 +86,21 @@ class Prod(fm.TimeComponent):
     def _update(self):
         self.watch("before_update_prod")
         self._time = self.next_time
-        if self.repush:
+        if self.repush == "alias":
+            # fault: the component first hands in the array it published last (refused: shares memory with retained data), handles the
+            # error and publishes a fresh array - the refused attempt must leave nothing behind
+            prev = getattr(self, "_prev", None)
+            if isinstance(prev, np.ndarray):
+                try:
+                    self.outputs["o"].push_data(prev, self.time)
+                    raise AliasAccepted()  # the retained entry had been spilled already: nothing is shared, the run has left the fault's domain
+                except fm.errors.FinamDataError:
+                    pass
+        elif self.repush:
             self.outputs["o"].push_data(payload(self.pk, self.time) * 0.5, self.time)
         if not self.static:
-            self.outputs["o"].push_data(payload(self.pk, self.time), self.time)
+            self._prev = payload(self.pk, self.time)
+            self.outputs["o"].push_data(self._prev, self.time)
         self.watch("after_update_prod")
 
     def _finalize(self):
@@ -325,7 +340,7 @@ def run_case(case):
     cnt = res["counters"]
     via = case.get("via", "composition")
     order = case.get("order", "PC")
-    rp = bool(case.get("repush"))
+    rp = case.get("repush") or False
     ref, out0, left0, _ = run_one(kind, pk, None, steps, end, tag, "composition", order, rp)
     size = 8 if pk == "scalar" else 48
     lims = case.get("limits") or limits_for(size, case["nmax"])
@@ -343,6 +358,11 @@ def run_case(case):
             res["nontrivial"] += 1
             cnt["runs_that_spilled"] = cnt.get("runs_that_spilled", 0) + 1
         one = dict(case, limits=[lim])
+        if isinstance(got, tuple) and got[1] == "AliasAccepted":
+            cnt["alias_publication_accepted_because_previous_entry_was_spilled"] = cnt.get("alias_publication_accepted_because_previous_entry_was_spilled", 0) + 1
+            continue
+        if rp == "alias":
+            cnt["runs_with_refused_alias_publications"] = cnt.get("runs_with_refused_alias_publications", 0) + 1
         diff = same_series(ref, got)
         slot = "output" if kind.startswith(("direct", "static")) else "adapter:" + kind
         if diff:
@@ -380,6 +400,7 @@ def run(tier, seed, agg):
     cases += [dict(kind=k, payload="grid", steps=list(s), end=7, nmax=3, via="composition", order="CP") for k in KINDS for s in ((1, 1), (1, 2), (2, 3))]
     cases += [dict(kind=k, payload="grid_foreign_rate" if k in ("Sum", "SumLin") else "grid_foreign", steps=list(s), end=7, nmax=3, via="composition") for k in KINDS for s in ((1, 1), (1, 2), (2, 1), (1, 3))]
     cases += [dict(kind=k, payload="grid", steps=list(s), end=6, nmax=3, via="composition", repush=True) for k in ("direct", "Next", "Previous", "Linear", "Step", "Avg", "Sum", "SumAbs") for s in ((1, 1), (1, 2), (2, 1))]
+    cases += [dict(kind=k, payload=p, steps=list(s), end=6, nmax=4, via=v, repush="alias") for k in ("direct", "Linear", "Avg", "Next+D") for p in ("grid", "masked") for s in ((1, 1), (1, 2), (2, 1)) for v in ("composition", "slot")]
     cases += [dict(kind="static", payload=p, steps=list(s), end=4, nmax=2, via=v) for p in PAYLOADS for s in ((1, 1), (2, 1)) for v in ("composition", "slot")]
     cases += [dict(kind=k, payload="masked_sometimes", steps=list(s), end=7, nmax=4, via="composition") for k in ("direct", "Next", "Previous", "Linear", "Step", "Avg") for s in ((1, 1), (1, 2), (2, 1), (1, 3))]
     # a slow producer under a fast consumer (several pulls inside one publication interval)
@@ -404,7 +425,7 @@ def run(tier, seed, agg):
         level="fault_enumeration",
         rule="slot kind {output, Next, Previous, Linear, Step, Avg, Avg(step), Sum(per_time), Sum(absolute), Sum(linear); the same followed by DelayFixed(2h), DelayFixed upstream of LinearTime; both listing orders} x payload {scalar, 2x3 grid, 2x3 masked} x step pair x memory limit in "
         "{0,1,s-1,s,s+1,...,Ns+1} (every prefix of publications kept in RAM, off-by-one around each threshold), each run through the real Composition and compared with the run without limit; "
-        "limit given composition-wide or per slot (with the composition-wide location); compositions of the same structure run back to back in one process on one spill location with different data until 8 (thorough 20) runs have re-used a spill file name of the run before them (slot ids repeat; at most 80/200 runs), each compared with its unlimited run; directory listing observed around every producer update and after run(). non-trivial = runs in which at least one spill file was observed",
+        "producers that first hand in the array published last (refused, handled) and then a fresh one; limit given composition-wide or per slot (with the composition-wide location); compositions of the same structure run back to back in one process on one spill location with different data until 8 (thorough 20) runs have re-used a spill file name of the run before them (slot ids repeat; at most 80/200 runs), each compared with its unlimited run; directory listing observed around every producer update and after run(). non-trivial = runs in which at least one spill file was observed",
         bound=dict(horizon_h=end, step_pairs=pairs, N=4 if q else 7),
         assumptions=["byte size s of one data set = 8 x number of elements", "series compared with rtol 1e-12"],
     )
